@@ -14,6 +14,24 @@ open Goml.Dce (writesStmts writesStmt writesCases writesTCases mem_uni Names)
 
 attribute [local irreducible] Goml.GoCompile.vn Goml.GoCompile.gid Goml.GoCompile.rn
 
+/-- the names the compiled arms declare (nested included) -/
+def armDecls : List (Imm × List GStmt) → List String
+  | [] => []
+  | p :: rest => ndDecls p.2 ++ armDecls rest
+
+def optDecls : Option (List GStmt) → List String
+  | some b => ndDecls b
+  | none => []
+
+theorem armDecls_typeCases (env : Env) : ∀ ra : List (Imm × List GStmt), ndDeclsTCases (typeCases env ra) = armDecls ra
+  | [] => rfl
+  | (lhs, body) :: rest => by simp [typeCases, ndDeclsTCases, armDecls, armDecls_typeCases env rest]
+
+theorem armDecls_valueCases (k : MatchKind) : ∀ ra : List (Imm × List GStmt), ndDeclsCases (valueCases k ra) = armDecls ra
+  | [] => rfl
+  | (lhs, body) :: rest => by simp [valueCases, ndDeclsCases, armDecls, armDecls_valueCases k rest]
+
+
 /-- the variable a lowering mode assigns -/
 def tgtName : Mode → List String
   | .effect => []
